@@ -455,7 +455,7 @@ func TestC08PeerRequests(t *testing.T) {
 	defer vt.Watch("TestC08PeerRequests", 120*time.Second)()
 	rec := vt.For("C08")
 	rec.Rule("pool session in virtual time: 0-6 hosts with kind in {geth,parity,\"\"}, last check-in age in {0,30s,119.9s,120.1s,300s}, connection in {live, closed, re-registered with old connection closed or kept}, whitelist behaviour in {ack, ack after d<5s, ack after d>5s, error, reply without result, never}; 1-3 clients; requester (client or host) with tracked peers from a keep-alive; vipnode_peer{num in {-7,-1,0,1,2,3,supply,supply+2}, kind} or legacy vipnode_client{num_hosts,kind}; max-request-hosts in {0,1,2,5}; oracle (validity predicate): every returned node is an eligible host (kind, recency, not requester, not already a peer, live current connection) whose whitelist(requester) completed on that connection before the reply, no duplicates, len <= n_eff, n_eff<=0 => empty, hosts returned => no error, reply within 5s of virtual time, and if every active host of the kind is eligible and acks then len == min(n_eff, supply); non-trivial = supply>0 and (>=1 ineligible or failing host, or n_eff != supply); distinct by full population + request")
-	rapid.Check(t, func(rt *rapid.T) {
+	check(t, func(rt *rapid.T) {
 		rapid.SyncTest(rt, func(rt *rapid.T) { c08Case(rt, rec) })
 	})
 }
